@@ -256,22 +256,22 @@ def _read_parameters(
             annotation = annotation[:-10]
         description = "\n".join(item[1:]).rstrip() if len(item) > 1 else ""
 
+        signature_annotations: dict[str, str | Expr | None] = {}
         if annotation is None:
-            # try to use the annotation from the signature
+            # try to use the annotations from the signature (each name gets its own)
             for name in names:
                 with suppress(AttributeError, KeyError):
-                    annotation = docstring.parent.parameters[name].annotation  # type: ignore[union-attr]
-                    break
-            else:
+                    signature_annotations[name] = docstring.parent.parameters[name].annotation  # type: ignore[union-attr]
+            if not signature_annotations:
                 docstring_warning(docstring, new_offset, f"No types or annotations for parameters {names}")
         else:
             annotation = parse_docstring_annotation(annotation, docstring, log_level=LogLevel.debug)
 
+        signature_defaults: dict[str, str | Expr | None] = {}
         if default is None:
             for name in names:
                 with suppress(AttributeError, KeyError):
-                    default = docstring.parent.parameters[name].default  # type: ignore[union-attr]
-                    break
+                    signature_defaults[name] = docstring.parent.parameters[name].default  # type: ignore[union-attr]
 
         if warn_unknown_params:
             with suppress(AttributeError):  # For Parameters sections in objects without parameters.
@@ -286,7 +286,13 @@ def _read_parameters(
                         docstring_warning(docstring, new_offset, message)
 
         parameters.extend(
-            DocstringParameter(name, value=default, annotation=annotation, description=description) for name in names
+            DocstringParameter(
+                name,
+                value=signature_defaults.get(name, default),
+                annotation=signature_annotations.get(name, annotation),
+                description=description,
+            )
+            for name in names
         )
 
     return parameters, new_offset
